@@ -18,12 +18,16 @@ pub enum SearchOut<N> {
 pub enum GErr {
     NotFound,
     Exists,
+    Other,
 }
 
+#[allow(unreachable_patterns)]
 fn gerr(e: gdsl::error::Error) -> GErr {
     match e {
         gdsl::error::Error::EdgeNotFound => GErr::NotFound,
         gdsl::error::Error::EdgeAlreadyExists => GErr::Exists,
+        // a variant added later: neither of the two the properties name
+        _ => GErr::Other,
     }
 }
 
